@@ -162,6 +162,8 @@ pub enum FinalMode {
     Shutdown,
     /// drop every value and handle the application holds (client stops on its last handle)
     DropAll,
+    /// `BrokerHandle::shutdown_connection` for this client's connection
+    BrokerKick,
 }
 
 #[derive(Debug, Clone)]
@@ -264,7 +266,11 @@ pub fn decode_header(t: &mut Tape) -> (u64, u64, u8, Vec<ClientSpec>, bool) {
             })
         };
         let tasks = 1 + t.weighted(&[2, 4, 3]);
-        let final_mode = if t.weighted(&[3, 2]) == 0 { FinalMode::Shutdown } else { FinalMode::DropAll };
+        let final_mode = match t.weighted(&[3, 2, 1]) {
+            0 => FinalMode::Shutdown,
+            1 => FinalMode::DropAll,
+            _ => FinalMode::BrokerKick,
+        };
         clients.push(ClientSpec { proto, tkind, tasks, final_mode });
     }
     let idle_early = t.bool();
